@@ -118,6 +118,66 @@ def no_flag_keyed_exit(P, R, b, rule='C06.GRD.3'):
     R.floor(rule, 1)
 
 
+def query_capacity(P, R, xq, b, rule='C06.BND.5'):
+    """A query is sent whole: the buffer the query text is formatted into holds the longest text any caller can
+    produce - the literal parts of its format plus the capacities of the fields and buffers it inserts."""
+    from .. import bnd
+    import re as _re
+
+    def cap(fn, a, depth=0):
+        """longest string an argument can denote, or None"""
+        if not isinstance(a, dict) or depth > 3:
+            return None
+        if a.get('k') in ('mem', 'var') and a.get('arr') is not None and a.get('elsz', 1) == 1:
+            return a['arr'] - 1
+        if a.get('k') == 'str':
+            return len(a['v'])
+        if a.get('k') == 'cond':
+            x, y = cap(fn, a.get('t'), depth + 1), cap(fn, a.get('f'), depth + 1)
+            return None if x is None or y is None else max(x, y)
+        if is_var(a) and a.get('sc') == 'local':
+            ws = []
+            for d in fn.local_defs(a['name']):
+                w = cap(fn, d.ev.get('rhs') or d.ev.get('init'), depth + 1)
+                if w is None:
+                    return None
+                ws.append(w)
+            return max(ws) if ws else None
+        return None
+    bufs = [s for s in xq.sites() if s.ev['k'] == 'decl' and s.ev.get('array') and s.ev.get('t', '').startswith('char[')]
+    fmts = [s for s in xq.calls() if s.ev.get('callee') in ('vsnprintf', 'vsprintf')]
+    if not bufs or not fmts:
+        R.note('%s: the query sender does not format into a local buffer; not judged' % rule)
+        return
+    ext = max(s.ev['array'] for s in bufs)
+    n = 0
+    for s in b.calls():
+        if xq not in P.callees(s, False):
+            continue
+        fmt = rules.fmt_literal(s.ev, 2)
+        if not fmt:
+            continue
+        total, ai, ok = 0, 3, True
+        for m in _re.finditer(r'%[-+ #0]*\d*(?:\.\d+)?(?:hh|h|l|ll|z)?([diuxXcs%])|.', fmt, _re.S):
+            if not m.group(0).startswith('%') or len(m.group(0)) == 1:
+                total += 1
+                continue
+            conv = m.group(1)
+            if conv == '%':
+                total += 1
+                continue
+            a = s.ev['args'][ai] if ai < len(s.ev['args']) else None
+            ai += 1
+            w = cap(b, a) if conv == 's' else (11 if conv in 'di' else 10 if conv in 'uxX' else 1)
+            if w is None:
+                ok = False
+                break
+            total += w
+        n += 1
+        R.ob(rule, ok and total + 1 <= ext, s, 'the %s query fits the query buffer: at most %s bytes and the terminator, buffer %d' % (fmt.split()[0], total if ok else '?', ext), key='query-capacity:%s' % fmt.split()[0])
+    R.floor(rule, 3, 'query formats')
+
+
 def fanout_complete(P, R, b, rule='C06.MPT.2'):
     """The query builder looks at every service slot: an empty or disabled slot (left behind by a reload) is skipped,
     it does not end the fan-out for the services configured behind it."""
@@ -748,6 +808,7 @@ def run(P, R, tier):
     query_callers(P, R, xq, b)
     no_flag_keyed_exit(P, R, b)
     fanout_complete(P, R, b)
+    query_capacity(P, R, xq, b)
     # the prerequisite test is bitset_h_andnot(needed, present)
     rules.bitset_primitives(P, R, 'C06.TAB.3')
     type_range(P, R)
@@ -766,4 +827,7 @@ def run(P, R, tier):
     c01.who_may(P, Remap(R, {'C01.WMC.1': 'C06.WMC.3'}, keys=('bulk', 'clears:')), V, softfns)
     # the address in a query denotes the client's address: every significant digit of a group is printed
     c12.digit_thresholds(P, Remap(R, {'C12.TAB.1': 'C06.TAB.4'}), pf, pout, pposv)
+    # ... and is printed as a dotted quad exactly when it is an IPv4 address
+    from . import c09
+    c09.dotted_quad_guard(P, Remap(R, {'C09.GRD.2': 'C06.GRD.5'}))
     return EXPLANATION, ASSUMPTIONS
